@@ -26,6 +26,8 @@ def gen_cases(rng, n):
     for k in range(n):
         stream = STREAMS[k % len(STREAMS)]
         cases.append({"seed": rng.randrange(1 << 30), "stream": stream})
+    for force in ("cn+min_avg_coverage", "cn+display_format"):
+        cases.append({"seed": rng.randrange(1 << 30), "stream": "params", "force": force})
     return cases
 
 
@@ -97,6 +99,10 @@ def build_sample(case, d):
                              ["min_avg_coverage=5", "display_format=true"]])
     if st in ("plain", "indels", "neutral-gap") and rng.random() < 0.4 or st == "params" and rng.random() < 0.7:
         extra["cn"] = "1,1"
+    if case.get("force") == "cn+min_avg_coverage":       # whatever the seed: supplied structure together with a field the archive loader resets
+        params, extra["cn"] = ["min_avg_coverage=500"], "1,1"
+    elif case.get("force") == "cn+display_format":
+        params, extra["cn"] = ["display_format=true", "debug_novel=true"], "1,1"
     bam = os.path.join(d, f"S{case['seed'] % 100000}.bam")
     simreads.simulate(desc, build, alleles, None, L, step, bam, rng, noise=noise, background=background)
     return yml, desc, build, prof, bam, alleles, params, extra
